@@ -437,9 +437,16 @@ func checkArrayProxy(a *yjson.Array, m *val) *kit.Failure {
 }
 
 func evalArray(c Case, trace bool) verdict {
+	v, _ := evalArrayModels(c, trace)
+	return v
+}
+
+// evalArrayModels is evalArray that also returns the final models (nil after a
+// failure or a discarded case).
+func evalArrayModels(c Case, trace bool) (verdict, *[2]*val) {
 	w, err := newWorld(trace, func(r *yjson.Object) { r.SetNewArray("a") })
 	if err != nil {
-		return historyVerdict(w, err)
+		return historyVerdict(w, err), nil
 	}
 	var models [2]*val
 	reinit := func(r int) *kit.Failure {
@@ -452,7 +459,7 @@ func evalArray(c Case, trace bool) verdict {
 	}
 	for r := 0; r < 2; r++ {
 		if f := reinit(r); f != nil {
-			return w.finish(f, false)
+			return w.finish(f, false), nil
 		}
 	}
 	nonTrivial := false
@@ -461,27 +468,27 @@ func evalArray(c Case, trace bool) verdict {
 		switch {
 		case s.Op == "sync":
 			if e := w.sync(r, s.A%4 == 0); e != nil {
-				return historyVerdict(w, e)
+				return historyVerdict(w, e), nil
 			}
 			_ = reinit(r)
 			continue
 		case s.Op == "syncall":
 			for _, q := range []int{0, 1, 0, 1} {
 				if e := w.sync(q, false); e != nil {
-					return historyVerdict(w, e)
+					return historyVerdict(w, e), nil
 				}
 			}
 			_, _ = reinit(0), reinit(1)
 			continue
 		case s.Op == "snap":
 			if e := w.snapshot(r); e != nil {
-				return historyVerdict(w, e)
+				return historyVerdict(w, e), nil
 			}
 			_ = reinit(r)
 			continue
 		case isArrayEdit(s.Op):
 		default:
-			return w.finish(kit.Failf("HARNESS", "HARNESS-ERROR unknown array op %q", s.Op), false)
+			return w.finish(kit.Failf("HARNESS", "HARNESS-ERROR unknown array op %q", s.Op), false), nil
 		}
 		m := models[r]
 		dead, tombs := arrayShape(rootArray(w, r))
@@ -514,10 +521,10 @@ func evalArray(c Case, trace bool) verdict {
 		if fail != nil {
 			fail.Msg = fmt.Sprintf("after step %d r%d %s: %s", si, r, desc, fail.Msg)
 			w.logf("FAIL %s", fail.Error())
-			return w.finish(fail, false)
+			return w.finish(fail, false), nil
 		}
 	}
-	return w.finish(nil, nonTrivial)
+	return w.finish(nil, nonTrivial), &models
 }
 
 func genArray() *rapid.Generator[Case] {
